@@ -43,6 +43,7 @@ import ASV.Proofs.RegionExtractKeptMulti
 import ASV.Proofs.RegionExtractCores
 import ASV.Proofs.RegionAnnotationsRead
 import ASV.Proofs.RegionExtractMotifOrder
+import ASV.Proofs.RegionExtractTies
 namespace ASV.C12
 open ASV ASV.RegionExtract
 
@@ -241,6 +242,49 @@ example : ¬ TiesByRecordNumber exTie 2000 ((protoDict exTie).map fun kv => (kv.
   have := h 3 2 (.simple ⟨1000, 1500, .fwd⟩) (.simple ⟨1000, 1500, .fwd⟩) 1 2 (by decide) (by decide) rfl rfl
     (by decide) (by decide)
   omega
+
+/-- Ties in file order, for a region that does not run over the origin: written protoclusters (and subregions) that
+    a loading record cannot tell apart by position and size — which it therefore numbers in the order in which they
+    stand in the file (`Record.add_protocluster` / `add_subregion` insert behind equals) — carry their numbers in
+    that order (`tiesInFileOrder`, until now only evaluated on each written file).  Three facts meet: the file keeps
+    the record's order (`plain_tags_sublist`: a slice), the record lists the areas of a kind in the order of their
+    numbers (hypothesis `InNumberOrder`, what `Record.to_biopython` does for protoclusters and subregions), and
+    `_number_by_position` breaks ties by record-wide number (`TiesByRecordNumber`).  Falsified by the round-4
+    seeded change C12_1 (sort key without the number).  Missing part: regions over the origin, where the file is
+    put together from three groups of features (before / over / after the origin) and it remains to show that tied
+    areas fall into the same group. -/
+theorem ties_in_file_order_partial (rd : RegionData) (rec : BioRecord) (w : Written)
+    (h : writeToGenbank rd rec = .ok w) (hwf : wfInput rd rec = true) (hcons : consistent rd rec = true)
+    (hplain : rd.crossesOrigin = false)
+    (hP : InNumberOrder "protocluster" (·.q.protoNumber) rec.features)
+    (hS : InNumberOrder "subregion" (·.q.subNumber) rec.features) :
+    tiesInFileOrder (·.q.protoNumber) (ofType "protocluster" w.extract.features) = true ∧
+    tiesInFileOrder (·.q.subNumber) (ofType "subregion" w.extract.features) = true :=
+  written_ties rd rec w h hwf hcons hplain hP hS
+
+/-- Not vacuous: two subregions (record-wide numbers 2 and 3) on the same coordinates behind another one; the region
+    lists number 3 first -/
+def exTieRec : BioRecord :=
+  { seq := "ACGTACGTACGTACGTACGT".toList,
+    features := [
+      ⟨0, "subregion", .simple ⟨1, 3, .fwd⟩, { subNumber := some 1 }⟩,
+      ⟨1, "region", .simple ⟨1, 3, .fwd⟩, { subNumbers := [1] }⟩,
+      ⟨2, "subregion", .simple ⟨8, 14, .fwd⟩, { subNumber := some 2 }⟩,
+      ⟨3, "subregion", .simple ⟨8, 14, .fwd⟩, { subNumber := some 3 }⟩,
+      ⟨4, "region", .simple ⟨8, 14, .fwd⟩, { subNumbers := [2, 3] }⟩] }
+def exTieSubs : RegionData :=
+  { start := 8, «end» := 14, cands := [], subs := [⟨3, .simple ⟨8, 14, .fwd⟩⟩, ⟨2, .simple ⟨8, 14, .fwd⟩⟩] }
+
+example : wfInput exTieSubs exTieRec = true ∧ consistent exTieSubs exTieRec = true ∧
+    exTieSubs.crossesOrigin = false := by decide
+example : InNumberOrder "subregion" (·.q.subNumber) exTieRec.features ∧
+    InNumberOrder "protocluster" (·.q.protoNumber) exTieRec.features :=
+  ⟨inNumberOrder_of_B _ _ _ (by decide), inNumberOrder_of_B _ _ _ (by decide)⟩
+/-- the two tied subregions are written as 1 and 2 in file order (the region feature refers to both) -/
+example : (writeToGenbank exTieSubs exTieRec).toOption.map (fun w =>
+      (w.extract.features.map fun f => (f.tag, f.q.subNumber, f.q.subNumbers),
+       tiesInFileOrder (·.q.subNumber) (ofType "subregion" w.extract.features))) =
+    some ([(2, some 1, []), (3, some 2, []), (4, none, [1, 2])], true) := by decide
 
 /-- The full statement: the file, taken on its own, is what a record that loads it expects — areas of
     each kind numbered `1..n` in load order, every reference by number resolving, `core_location`
